@@ -937,7 +937,7 @@ func runC09(c *Ctx) error {
 		jobs = append(jobs, &c09Job{kind: "corpus:" + cc.Name, in: &in})
 	}
 	if !replayOnly {
-		r := c.Rng
+		r := c.Rng.Fork() // seeds k and k+1 of the shared SplitMix64 are the same stream shifted by one draw
 		base := func() *C09Input {
 			in := &C09Input{N: r.Range(2, 4), Pushes: true}
 			if r.Chance(40) {
